@@ -19,8 +19,13 @@ for d in sorted(glob.glob(os.path.join(os.path.dirname(os.path.dirname(os.path.a
         if not r: return '–'
         return ', '.join(f"{c}:{'caught' if v.get('detected') else 'missed'}" for c, v in sorted(r.items()))
     hist = m.get('history', {})
-    rows.append((name, ', '.join(os.path.basename(f) for f in files), title[:90], hist.get('first_quick', ''), hist.get('first_thorough', ''), cell('quick'), cell('thorough')))
-print('| seed | file(s) | change (from the sub-agent\'s README) | first run, quick | first run, thorough | now, quick | now, thorough |')
-print('|---|---|---|---|---|---|---|')
+    first = hist.get('first_quick', '').replace('detected', 'caught') or '(not recorded)'
+    rows.append((name, ', '.join(os.path.basename(f) for f in files), title[:110], first, cell('quick')))
+print('Seeded breaking changes (one directory each: patch.diff, demo_test.go, README.md, meta.json). "first run" = the quick check of the')
+print('seed\'s property on the day the seed arrived, before the strengthening it prompted; "now" = the last full sweep (quick tier).')
+print('(For rounds 1 and 2 the first run was recorded in other checks\' columns as well; only the property\'s own check is listed here.)')
+print()
+print('| seed | file(s) | change (title of the sub-agent\'s README) | first run | now |')
+print('|---|---|---|---|---|')
 for r in rows:
     print('| ' + ' | '.join(x.replace('|', '/') for x in r) + ' |')
